@@ -19,6 +19,9 @@ STRENGTHENED = {"C02-a": "discount domain extended beyond 200 %", "C03-b": "caug
                 "C44-r2": "RejectCreate/RejectExec cover walks not ending in the declared token; PaidDeclared; world with collateral",
                 "C22-r2": "withdrawals with >= 2-hop output paths ending in a token of the first market",
                 "C38-r2": "wide reward pairs judged through BigNum (RewardMonoWide)",
+                "C01-r3": "deterministic type-limit preamble (dividends at the type maximum, small divisors incl. exact multiples) in the wide tier",
+                "C08-r3": "history presets with a liquidation receiver share other than 50 %",
+                "C19-r3": "caught by C20 (config buffer policy); C19's classes see the instruction as correctly role-gated",
                 "C36-r2": "delays above 30 days and near u32::MAX in both C36 bindings",
                 "C15-s": "SDK pool view bound at the u128 limits",
                 "C40-a": "closed-market parameter combinations in the compared views",
@@ -26,9 +29,11 @@ STRENGTHENED = {"C02-a": "discount domain extended beyond 200 %", "C03-b": "caug
                 "C42-a": "precise transcription of the search: known findings suppress only design-conforming failures"}
 NOT_A_VIOLATION = {
     "C18-r2": "not caught and not a violation of the statement: revoke on a disabled role now FAILS without side effects, so 'granted and not revoked since' still describes who holds the role; reported as 682 drift events on revoke (the precise Roles.tla lets that revoke succeed)",
+    "C02-r3": "not caught and, by the seeder's own caveat, no tokens are created or lost: order_fees' pool share is floored separately so pool + receiver is one unit below the floor of value/price, and the trader is charged exactly pool + receiver; reported as 47,503 drift events (the precise Fees.tla computes pool = fee - receiver)",
+    "C18-r3": "not caught: the 32nd role can no longer be enabled (the call fails without side effects), so who holds which role is still exactly 'enabled and granted and not revoked'; reported as 5,372 drift events on enable",
     "C19-r2": "cannot manifest in the default build: it needs a second store, which only exists with the cargo feature multi-store (the seeder says so); the checks build the default feature set",
 }
-OTHER_PROP = {"C03-b": "C05", "C40-b": "C31"}
+OTHER_PROP = {"C03-b": "C05", "C40-b": "C31", "C19-r3": "C20"}
 for d in sorted(glob.glob(V + '/seeded/C*')):
     sid = os.path.basename(d)
     mp = d + '/meta.json'
